@@ -247,8 +247,8 @@ func runReaders(r *ev.Run) {
 						} else if gs != cs {
 							c.Got, c.Want = fmt.Sprintf("%q", gs), fmt.Sprintf("%q", cs)
 							r.Violate(fmt.Sprintf("reader/string-value/residue=%s", resClass(res, 4)), "ParseString returns wrong text", c)
-						} else if p.Length() != res {
-							r.Violate("reader/string-cursor", "cursor did not advance by 4+len", c)
+						} else if p.Length() != res || !bytes.Equal(p.Buffer(), fill) {
+							r.Violate("reader/string-cursor", "cursor did not advance by 4+len, or the bytes behind the field were altered", c)
 						}
 					}
 					// ParseAtLeastBytes(n) with n = len(s)
@@ -259,7 +259,7 @@ func runReaders(r *ev.Run) {
 					c.R = "ParseAtLeastBytes"
 					if pn != nil {
 						r.Violate("reader/ParseAtLeastBytes/panic", fmt.Sprint(pn), c)
-					} else if !bytes.Equal(ga, s) || p.Length() != res {
+					} else if !bytes.Equal(ga, s) || p.Length() != res || !bytes.Equal(p.Buffer(), fill) {
 						r.Violate("reader/atleast-value", "ParseAtLeastBytes returns wrong bytes or cursor", c)
 					}
 				}
@@ -292,22 +292,35 @@ func runReaders(r *ev.Run) {
 							sig = fmt.Sprintf("reader/utf16-value/residue=%s/%s", resClass(res, 4), wc.name)
 						}
 						r.Violate(sig, "ParseUTF16String does not return the text that was sent", c)
-					} else if p.Length() != res {
-						r.Violate("reader/utf16-cursor", "cursor did not advance by 4+len", c)
+					} else if p.Length() != res || !bytes.Equal(p.Buffer(), fill) {
+						r.Violate("reader/utf16-cursor", "cursor did not advance by 4+len, or the bytes behind the field were altered", c)
 					}
 					r.Outcome("utf16 " + wc.name)
 				}
 			}
 		}
 	}
-	// odd-length UTF-16 byte strings (a truncated or hostile field): must not panic
+	// odd-length UTF-16 byte strings (a truncated or hostile field): must not panic, and
+	// whatever follows the field in the packet must still be there, byte for byte, for the
+	// next reader ("come out unchanged whatever follows them")
 	for n := 1; n <= 7; n += 2 {
-		body := bytes.Repeat([]byte{0x41}, n)
-		p := parser.NewParser(append(enc32(uint32(n), true), body...))
-		pn := guard(func() { p.ParseUTF16String() })
-		r.Eval(1)
-		if pn != nil {
-			r.Violate("reader/ParseUTF16String/panic/odd-length", fmt.Sprint(pn), rcase{R: "ParseUTF16String", V: fmt.Sprintf("odd length %d", n)})
+		for res := 0; res <= maxRes; res++ {
+			for fi, fill := range residues(res) {
+				body := bytes.Repeat([]byte{0x41}, n)
+				buf := append(append(enc32(uint32(n), true), body...), fill...)
+				p := parser.NewParser(buf)
+				pn := guard(func() { p.ParseUTF16String() })
+				r.Eval(1)
+				c := rcase{R: "ParseUTF16String", V: fmt.Sprintf("odd length %d", n), Residue: res, Fill: fmt.Sprint(fi)}
+				if pn != nil {
+					r.Violate("reader/ParseUTF16String/panic/odd-length", fmt.Sprint(pn), c)
+					continue
+				}
+				if p.Length() != res || !bytes.Equal(p.Buffer(), fill) {
+					c.Got, c.Want = fmt.Sprintf("%x", p.Buffer()), fmt.Sprintf("%x", fill)
+					r.Violate("reader/utf16-odd-length/bytes-behind-the-field-altered", "after an odd-length UTF-16 field the rest of the packet is not what was sent", c)
+				}
+			}
 		}
 	}
 	runCanIRead(r)
